@@ -58,15 +58,14 @@ theorem pv_elem_facts {x : PV} (h : pvOk x = true) :
   | atom s =>
     simp only [pvOk, Bool.and_eq_true, Bool.not_eq_true', List.isEmpty_eq_false_iff] at h
     refine ⟨by simp [nestedOfPV, pvToElem, elemToNested], by simp [pvToElem, PV.ofElem],
-      (strOk_spec h.1).2.2, h.1, ?_⟩
+      trivial, h.1, ?_⟩
     simp only [pvToElem, ne_eq, Elem.atom.injEq]
     exact h.2
   | list ys =>
     simp only [pvOk, Bool.and_eq_true, Bool.not_eq_true', List.isEmpty_eq_false_iff] at h
     obtain ⟨e, hs⟩ := inner_ok h.2
     have hne : ys.map atomStr ≠ [] := by simpa using h.1
-    refine ⟨?_, ?_, ⟨hne, fun s hs' => (strOk_spec (hs s hs').1).2.2, ?_⟩, fun s hs' => (hs s hs').1,
-      by simp [pvToElem]⟩
+    refine ⟨?_, ?_, ⟨hne, ?_⟩, fun s hs' => (hs s hs').1, by simp [pvToElem]⟩
     · have : nestedOfPVs ys = (ys.map atomStr).map Nested.str := by
         conv => lhs; rw [e]
         generalize ys.map atomStr = ss
